@@ -45,8 +45,9 @@ type ProcessSet struct {
 
 	subTracer tracing.ITracer
 
-	mch  chan imessage
-	done chan struct{}
+	mch      chan imessage
+	done     chan struct{}
+	doneOnce sync.Once
 }
 
 func NewProcessSet(executeProcesses, waitingProcesses []*schema.Process, definitions *schema.Definitions, opts ...Option) (*ProcessSet, error) {
@@ -118,7 +119,7 @@ func (ps *ProcessSet) StartAll(ctx context.Context) error {
 func (ps *ProcessSet) WaitUntilComplete(ctx context.Context) (complete bool) {
 	go func() {
 		ps.wg.Wait()
-		close(ps.done)
+		ps.doneOnce.Do(func() { close(ps.done) })
 	}()
 	select {
 	case <-ctx.Done():
